@@ -189,7 +189,11 @@ def lenient_decode(b):
 
 
 def info_span(b):
-    for k, s, e in lenient_spans(b):
+    try:
+        spans = lenient_spans(b)
+    except (ValueError, IndexError, RecursionError, TypeError) as exc:
+        raise BErr(f"not bencoding: {type(exc).__name__}: {str(exc)[:80]}") from None
+    for k, s, e in spans:
         if k == b"info":
             return b[s:e]
     return None
